@@ -29,7 +29,7 @@ pub fn run(target: &str, focus: &str, data: &[u8]) -> Check {
         "fuzz_cursor" => {
             let Ok((spec, ops, probes)) = bytescase::cursor_case(data) else { return Ok(()) };
             match focus {
-                "C02" => c02::C02.run(&c02::Case { spec, picks: vec![], probes }, &mut obs),
+                "C02" => c02::C02.run(&c02::Case { spec, picks: vec![], probes, pre: ops }, &mut obs),
                 "C16" => c16::C16.run(&c16::Case::History { spec, ops }, &mut obs),
                 // C03 and C17 (sanitizer is the oracle there, the history is the workload)
                 _ => c03::C03.run(&c03::Case::History { spec, ops }, &mut obs),
